@@ -106,6 +106,22 @@ func (dec *Decoder) ReadInt() (value int) {
 	return int(dec.ReadInt64())
 }
 
+// ReadCount reads the element count of a list, map or class, or the length of a
+// string or byte string. A count that is negative, or larger than the rest of
+// the input could possibly hold (every element and every character takes at
+// least one byte), is reported through the decoder's error and read as 0: the
+// count comes from the peer and must not be trusted with an allocation.
+func (dec *Decoder) ReadCount() (count int) {
+	count = dec.ReadInt()
+	if count < 0 || (dec.reader == nil && count > dec.tail-dec.head) {
+		if dec.Error == nil {
+			dec.Error = DecodeError("hprose/io: invalid count or length " + strconv.Itoa(count))
+		}
+		return 0
+	}
+	return count
+}
+
 // ReadUint reads uint.
 func (dec *Decoder) ReadUint() (value uint) {
 	return uint(dec.ReadUint64())
